@@ -1019,4 +1019,726 @@ theorem rfcUtcOffset_offTo (s : Int) (h : s.natAbs < 86400) : rfcUtcOffset (offT
     · simp [hneg, h1, h2, h3]
       omega
 
+/-! ## leading zeros, `-0000` -/
+
+theorem ofDigits_zeros (l : Str) (h : ∀ c ∈ l, c = '0') : ofDigits l = 0 := by
+  induction l with
+  | nil => rfl
+  | cons c cs ih =>
+    have hc := h c (by simp)
+    subst hc
+    have : ofDigits ('0' :: cs) = ofDigits cs := by simp [ofDigits, digitVal]
+    rw [this]; exact ih (fun x hx => h x (by simp [hx]))
+
+theorem ofDigits_replicate_zero (k : Nat) (d : Str) : ofDigits (List.replicate k '0' ++ d) = ofDigits d := by
+  induction k with
+  | zero => simp
+  | succ k ih =>
+    rw [List.replicate_succ, List.cons_append]
+    have : ofDigits ('0' :: (List.replicate k '0' ++ d)) = ofDigits (List.replicate k '0' ++ d) := by
+      simp [ofDigits, digitVal]
+    rw [this, ih]
+
+theorem ofDigits_pad (w n : Nat) : ofDigits (pad w n) = n := by
+  unfold pad; simp only []; rw [ofDigits_replicate_zero, ofDigits_natToStr]
+
+/-- a sign `-` is never followed by zeros only: `vUTCOffset.to_ical` never writes `-0000`/`-000000`,
+    whatever the magnitude -/
+theorem offTo_not_minus_zeros (s : Int) (zs : Str) (h : offTo s = '-' :: zs) : ¬ ∀ c ∈ zs, c = '0' := by
+  intro hz
+  unfold offTo at h
+  simp only [] at h
+  have hneg : s < 0 := by
+    by_cases hn : s < 0
+    · exact hn
+    · simp [hn] at h
+  have hpos : 0 < s.natAbs := by omega
+  simp only [hneg, if_true, List.cons.injEq, true_and] at h
+  have hH : s.natAbs / 3600 = 0 := by
+    rw [← ofDigits_pad 2 (s.natAbs / 3600)]
+    apply ofDigits_zeros
+    intro c hc; apply hz c; rw [← h]; split <;> simp [hc]
+  have hM : s.natAbs % 3600 / 60 = 0 := by
+    rw [← ofDigits_pad 2 (s.natAbs % 3600 / 60)]
+    apply ofDigits_zeros
+    intro c hc; apply hz c; rw [← h]; split <;> simp [hc]
+  by_cases hs : s.natAbs % 60 = 0
+  · omega
+  · have hS : s.natAbs % 60 = 0 := by
+      rw [← ofDigits_pad 2 (s.natAbs % 60)]
+      apply ofDigits_zeros
+      intro c hc; apply hz c; rw [← h]; simp [hs, hc]
+    exact hs hS
+
+/-! ## INTEGER -/
+
+theorem rstripSp_nospace (s : Str) (hs : ∀ c ∈ s, isPySpace c = false) : rstripSp s = s := by
+  induction s with
+  | nil => rfl
+  | cons c cs ih =>
+    have hc := hs c (by simp)
+    have := ih (fun x hx => hs x (by simp [hx]))
+    simp only [rstripSp, this]
+    cases cs with
+    | nil => simp [hc]
+    | cons d ds => rfl
+
+theorem isDigitStr_iff (s : Str) : isDigitStr s = true ↔ s ≠ [] ∧ ∀ c ∈ s, isDigit c = true := by
+  unfold isDigitStr
+  cases s <;> simp
+
+theorem pyInt_signed (sg : Char) (r : Str) (hsg : sg = '-' ∨ sg = '+') (hr : isDigitStr r = true) :
+    pyInt (sg :: r) = some (if sg = '-' then -((ofDigits r : Nat) : Int) else ((ofDigits r : Nat) : Int)) := by
+  obtain ⟨hne, hd⟩ := (isDigitStr_iff r).1 hr
+  have hsp : isPySpace sg = false := by rcases hsg with rfl | rfl <;> decide
+  unfold pyInt
+  have h1 : lstripSp (sg :: r) = sg :: r := by simp [lstripSp, hsp]
+  have h2 : rstripSp (sg :: r) = sg :: r := by
+    apply rstripSp_nospace
+    intro c hc; simp at hc; rcases hc with rfl | hc
+    · exact hsp
+    · exact isDigit_not_space c (hd c hc)
+  rw [h1, h2]
+  have hn : pyNat r = some (ofDigits r) := by
+    unfold pyNat
+    rw [pyNatAux_digits r hd 0 false (Or.inl hne)]; rfl
+  rcases hsg with rfl | rfl
+  · simp [hn]
+  · simp [hn]
+
+/-- every RFC `integer` text decodes to its value -/
+theorem rfcInteger_intFrom {t : Str} {v : Int} (h : rfcInteger t = some v) : intFrom t = .ok v := by
+  unfold intFrom pyIntE
+  unfold rfcInteger at h
+  split at h
+  · next r =>
+    split at h
+    · next hr => cases h; rw [pyInt_signed '-' r (Or.inl rfl) hr]; simp
+    · cases h
+  · next r =>
+    split at h
+    · next hr => cases h; rw [pyInt_signed '+' r (Or.inr rfl) hr]; simp
+    · cases h
+  · next r _ _ =>
+    split at h
+    · next hr =>
+      cases h
+      obtain ⟨hne, hd⟩ := (isDigitStr_iff _).1 hr
+      rw [pyInt_digits _ hd hne]
+    · cases h
+
+theorem isDigitStr_natToStr (n : Nat) : isDigitStr (natToStr n) = true :=
+  (isDigitStr_iff _).2 ⟨natToStr_ne_nil n, natToStr_digits n⟩
+
+theorem rfcInteger_intTo (z : Int) : rfcInteger (intTo z) = some z := by
+  unfold intTo intToStr
+  by_cases hz : z < 0
+  · simp only [hz, if_true, rfcInteger, isDigitStr_natToStr, ofDigits_natToStr]
+    simp; omega
+  · simp only [hz, if_false]
+    obtain ⟨c, cs, hc⟩ : ∃ c cs, natToStr z.natAbs = c :: cs := by
+      cases h : natToStr z.natAbs with
+      | nil => exact absurd h (natToStr_ne_nil _)
+      | cons c cs => exact ⟨c, cs, rfl⟩
+    have hd : isDigit c = true := natToStr_digits z.natAbs c (by rw [hc]; simp)
+    unfold rfcInteger
+    rw [hc]
+    split
+    · next r heq => simp at heq; exact absurd heq.1 (isDigit_ne c '-' hd)
+    · next r heq => simp at heq; exact absurd heq.1 (isDigit_ne c '+' hd)
+    · rw [← hc, isDigitStr_natToStr, ofDigits_natToStr]
+      simp; omega
+
+/-! ## `str.split(sep)` on a text with exactly one separator -/
+
+theorem splitOnChar_ne_nil (sep : Char) (t : Str) : splitOnChar sep t ≠ [] := by
+  cases t with
+  | nil => simp [splitOnChar]
+  | cons c cs =>
+    simp only [splitOnChar]
+    split
+    · simp
+    · split <;> simp
+
+theorem splitOnChar_nosep (sep : Char) (t : Str) (h : sep ∉ t) : splitOnChar sep t = [t] := by
+  induction t with
+  | nil => rfl
+  | cons c cs ih =>
+    have hc : c ≠ sep := by intro e; apply h; simp [e]
+    have := ih (by intro hm; apply h; simp [hm])
+    simp [splitOnChar, this, hc]
+
+theorem splitOnChar_append (sep : Char) (a b : Str) (h : sep ∉ a) :
+    splitOnChar sep (a ++ sep :: b) = a :: splitOnChar sep b := by
+  induction a with
+  | nil =>
+    simp only [List.nil_append, splitOnChar]
+    cases hb : splitOnChar sep b with
+    | nil => exact absurd hb (splitOnChar_ne_nil sep b)
+    | cons x xs => simp
+  | cons c cs ih =>
+    have hc : c ≠ sep := by intro e; apply h; simp [e]
+    have := ih (by intro hm; apply h; simp [hm])
+    simp [splitOnChar, this, hc]
+
+/-- if splitting gives exactly two parts, the text is those parts around one separator -/
+theorem splitOnChar_two {sep : Char} {t a b : Str} (h : splitOnChar sep t = [a, b]) :
+    t = a ++ sep :: b ∧ sep ∉ a ∧ sep ∉ b := by
+  induction t generalizing a with
+  | nil => simp [splitOnChar] at h
+  | cons c cs ih =>
+    simp only [splitOnChar] at h
+    cases hs : splitOnChar sep cs with
+    | nil => exact absurd hs (splitOnChar_ne_nil sep cs)
+    | cons x xs =>
+      rw [hs] at h
+      simp only [] at h
+      by_cases hc : c = sep
+      · simp only [hc, if_true, List.cons.injEq] at h
+        obtain ⟨rfl, rfl, rfl⟩ := h
+        -- cs splits into the single part x
+        have hx : sep ∉ x ∧ cs = x := by
+          clear ih
+          induction cs generalizing x with
+          | nil => simp [splitOnChar] at hs; subst hs; simp
+          | cons d ds ih2 =>
+            simp only [splitOnChar] at hs
+            cases hs2 : splitOnChar sep ds with
+            | nil => exact absurd hs2 (splitOnChar_ne_nil sep ds)
+            | cons y ys =>
+              rw [hs2] at hs; simp only [] at hs
+              by_cases hd : d = sep
+              · simp [hd] at hs
+              · simp only [hd, if_false, List.cons.injEq] at hs
+                obtain ⟨rfl, rfl⟩ := hs
+                have := ih2 y hs2
+                refine ⟨?_, by rw [this.2]⟩
+                intro hm; simp at hm; rcases hm with e | hm
+                · exact hd e.symm
+                · exact this.1 hm
+        exact ⟨by simp [hc, hx.2], by simp, hx.1⟩
+      · simp only [hc, if_false, List.cons.injEq] at h
+        obtain ⟨rfl, rfl⟩ := h
+        obtain ⟨h1, h2, h3⟩ := ih hs
+        refine ⟨by rw [h1]; simp, ?_, h3⟩
+        intro hm; simp at hm; rcases hm with e | hm
+        · exact hc e.symm
+        · exact h2 hm
+
+/-! ## `vDDDTypes.from_ical`: dispatch -/
+
+/-- the characters of DATE, DATE-TIME and TIME texts -/
+def dtChar (c : Char) : Bool := isDigit c || c == 'T' || c == 'Z'
+
+theorem upperC_dtChar (c : Char) (h : dtChar c = true) : upperC c = c := by
+  unfold dtChar at h
+  simp only [Bool.or_eq_true, beq_iff_eq] at h
+  rcases h with (h | rfl) | rfl
+  · exact upperC_digit c h
+  · decide
+  · decide
+
+theorem dtChar_ne_slash (c : Char) (h : dtChar c = true) : c ≠ '/' := by
+  intro e; subst e; revert h; decide
+
+theorem upper_dtChars (t : Str) (h : ∀ c ∈ t, dtChar c = true) : upper t = t := by
+  induction t with
+  | nil => rfl
+  | cons c cs ih =>
+    show upperC c :: upper cs = c :: cs
+    rw [upperC_dtChar c (h c (by simp)), show upper cs = cs from ih (fun x hx => h x (by simp [hx]))]
+
+theorem noslash_dtChars (t : Str) (h : ∀ c ∈ t, dtChar c = true) : t.contains '/' = false := by
+  induction t with
+  | nil => rfl
+  | cons c cs ih =>
+    have hc := dtChar_ne_slash c (h c (by simp))
+    have := ih (fun x hx => h x (by simp [hx]))
+    simp only [List.contains_cons, this, Bool.or_false]
+    simp; exact fun e => hc e.symm
+
+/-- a text that starts with a digit and has no `/` is dispatched on its length alone -/
+theorem dddCore_digits (per : Str → CRes DDD) (c : Char) (cs : Str) (hc : isDigit c = true)
+    (h : ∀ x ∈ c :: cs, dtChar x = true) :
+    dddCore per (c :: cs) =
+      if (c :: cs).length = 15 ∨ (c :: cs).length = 16 then (vDatetimeFrom (c :: cs)).map (fun x => .atom (.dt x))
+      else if (c :: cs).length = 8 then (vDateFrom (c :: cs)).map (fun x => .atom (.date x))
+      else if (c :: cs).length = 6 ∨ (c :: cs).length = 7 then (vTimeFrom (c :: cs)).map (fun x => .atom (.time x))
+      else .error .valueError := by
+  unfold dddCore
+  simp only []
+  rw [upper_dtChars _ h, noslash_dtChars _ h]
+  have h1 : c ≠ 'P' := isDigit_ne c 'P' hc
+  have h2 : c ≠ '-' := isDigit_ne c '-' hc
+  have h3 : c ≠ '+' := isDigit_ne c '+' hc
+  simp [startsWith, h1, h2, h3]
+
+theorem dtChar_digit (c : Char) (h : isDigit c = true) : dtChar c = true := by simp [dtChar, h]
+
+/-- DATE texts go to the date decoder -/
+theorem dddCore_date (per : Str → CRes DDD) {t : Str} {v : PDate} (h : rfcDate t = some v) :
+    dddCore per t = (vDateFrom t).map (fun x => .atom (.date x)) := by
+  obtain ⟨a, b, c, d, e, f, g, i, rfl, ha, hb, hc, hd, he, hf, hg, hi, _, _⟩ := rfcDate_inv h
+  rw [dddCore_digits per a _ ha (by
+    intro x hx; simp at hx
+    rcases hx with rfl | rfl | rfl | rfl | rfl | rfl | rfl | rfl <;> exact dtChar_digit _ ‹_›)]
+  simp
+
+/-- TIME texts go to the time decoder -/
+theorem dddCore_time (per : Str → CRes DDD) {t : Str} {v : PTime} (h : rfcTime t = some v) :
+    dddCore per t = (vTimeFrom t).map (fun x => .atom (.time x)) := by
+  obtain ⟨a, b, c, d, e, f, hform, ha, hb, hc, hd, he, hf, _⟩ := rfcTime_inv h
+  rcases hform with ⟨rfl, _⟩ | ⟨rfl, _⟩
+  · rw [dddCore_digits per a _ ha (by
+      intro x hx; simp at hx
+      rcases hx with rfl | rfl | rfl | rfl | rfl | rfl <;> exact dtChar_digit _ ‹_›)]
+    simp
+  · rw [dddCore_digits per a _ ha (by
+      intro x hx; simp at hx
+      rcases hx with rfl | rfl | rfl | rfl | rfl | rfl | rfl
+      all_goals first | exact dtChar_digit _ ‹_› | decide)]
+    simp
+
+/-- DATE-TIME texts (15 or 16 characters) go to the date-time decoder -/
+theorem dddCore_datetime (per : Str → CRes DDD) {t : Str} {v : PDateTime} (h : rfcDateTime t = some v) :
+    dddCore per t = (vDatetimeFrom t).map (fun x => .atom (.dt x)) := by
+  obtain ⟨a, b, c, d, e, f, g, i, j, k, l, m, n, o, rfl, ha, hb, hc, hd, he, hf, hg, hi, hj, hk, hl, hm, hn, ho, _⟩ :=
+    rfcDateTime_inv h
+  rw [dddCore_digits per a _ ha (by
+    intro x hx
+    cases hz : v.utc <;> simp [hz] at hx
+    · rcases hx with rfl | rfl | rfl | rfl | rfl | rfl | rfl | rfl | rfl | rfl | rfl | rfl | rfl | rfl | rfl
+      all_goals first | exact dtChar_digit _ ‹_› | decide
+    · rcases hx with rfl | rfl | rfl | rfl | rfl | rfl | rfl | rfl | rfl | rfl | rfl | rfl | rfl | rfl | rfl | rfl
+      all_goals first | exact dtChar_digit _ ‹_› | decide)]
+  cases hz : v.utc <;> simp
+
+theorem rfcDurBody_P {r : Str} {v : Nat} (h : rfcDurBody r = some v) : ∃ x, r = 'P' :: x := by
+  unfold rfcDurBody at h
+  split at h
+  · exact ⟨_, rfl⟩
+  · cases h
+
+/-- an RFC `dur-value` starts with `P`, `+P` or `-P` -/
+theorem rfcDuration_prefix {t : Str} {v : Int} (h : rfcDuration t = some v) :
+    ∃ x, t = 'P' :: x ∨ t = '-' :: 'P' :: x ∨ t = '+' :: 'P' :: x := by
+  unfold rfcDuration at h
+  split at h
+  · next r =>
+    cases hb : rfcDurBody r with
+    | none => rw [hb] at h; cases h
+    | some bv => obtain ⟨x, rfl⟩ := rfcDurBody_P hb; exact ⟨x, Or.inr (Or.inl rfl)⟩
+  · next r =>
+    cases hb : rfcDurBody r with
+    | none => rw [hb] at h; cases h
+    | some bv => obtain ⟨x, rfl⟩ := rfcDurBody_P hb; exact ⟨x, Or.inr (Or.inr rfl)⟩
+  · next r _ _ =>
+    cases hb : rfcDurBody t with
+    | none => rw [hb] at h; cases h
+    | some bv => obtain ⟨x, rfl⟩ := rfcDurBody_P hb; exact ⟨x, Or.inl rfl⟩
+
+/-- texts with a duration prefix go to the duration decoder -/
+theorem dddCore_prefixP (per : Str → CRes DDD) (t x : Str)
+    (h : t = 'P' :: x ∨ t = '-' :: 'P' :: x ∨ t = '+' :: 'P' :: x) :
+    dddCore per t = (durFromE t).map (fun s => .atom (.dur s)) := by
+  have hP : upperC 'P' = 'P' := by decide
+  have hm : upperC '-' = '-' := by decide
+  have hp : upperC '+' = '+' := by decide
+  unfold dddCore
+  rcases h with rfl | rfl | rfl <;> simp [upper, startsWith, hP, hm, hp]
+
+theorem dddCore_duration (per : Str → CRes DDD) {t : Str} {v : Int} (h : rfcDuration t = some v) :
+    dddCore per t = (durFromE t).map (fun s => .atom (.dur s)) := by
+  obtain ⟨x, hx⟩ := rfcDuration_prefix h
+  exact dddCore_prefixP per t x hx
+
+/-! ## DATE-TIME encoder output, PERIOD -/
+
+theorem vDatetimeTo_eq (v : PDateTime) (hv : v.valid = true) :
+    vDatetimeTo v = dateChars v.date.y v.date.m v.date.d ++ 'T' :: (hmsChars v.h v.mi v.s ++ (if v.utc then ['Z'] else [])) := by
+  obtain ⟨⟨y, m, d⟩, h, mi, s, z⟩ := v
+  simp only [PDateTime.valid, PDate.valid, Bool.and_eq_true] at hv
+  obtain ⟨hy, hm, hd⟩ := validDate_bounds hv.1
+  obtain ⟨hh, hmi, hs⟩ := validTime_bounds hv.2
+  unfold vDatetimeTo
+  simp only [vDateTo_eq y m d hy hm hd, hmsTo_eq h mi s (by omega) (by omega) (by omega)]
+
+/-- the encoded DATE-TIME is the RFC text of the value -/
+theorem rfcDateTime_vDatetimeTo (v : PDateTime) (hv : v.valid = true) : rfcDateTime (vDatetimeTo v) = some v := by
+  rw [vDatetimeTo_eq v hv]
+  obtain ⟨⟨y, m, d⟩, h, mi, s, z⟩ := v
+  simp only [PDateTime.valid, PDate.valid, Bool.and_eq_true] at hv
+  have hD := rfcDate_dateChars y m d hv.1
+  have hT := rfcTime_hmsChars h mi s hv.2
+  have hZ := rfcTime_hmsChars_Z h mi s hv.2
+  unfold dateChars at hD ⊢
+  simp only [List.cons_append, List.nil_append]
+  unfold rfcDateTime
+  cases z
+  · simp only [hD, Bool.false_eq_true, if_false, List.append_nil, hT]
+  · simp only [hD, if_true, hZ]
+
+theorem dtChars_dateChars (y m d : Nat) (hy : y < 10000) (hm : m < 100) (hd : d < 100) :
+    ∀ c ∈ dateChars y m d, dtChar c = true := by
+  intro c hc
+  unfold dateChars at hc
+  simp only [List.mem_cons, List.not_mem_nil, or_false] at hc
+  rcases hc with rfl | rfl | rfl | rfl | rfl | rfl | rfl | rfl <;>
+    exact dtChar_digit _ (isDigit_dig _ (by omega))
+
+theorem dtChars_hmsChars (h m s : Nat) (hh : h < 100) (hm : m < 100) (hs : s < 100) :
+    ∀ c ∈ hmsChars h m s, dtChar c = true := by
+  intro c hc
+  unfold hmsChars at hc
+  simp only [List.mem_cons, List.not_mem_nil, or_false] at hc
+  rcases hc with rfl | rfl | rfl | rfl | rfl | rfl <;>
+    exact dtChar_digit _ (isDigit_dig _ (by omega))
+
+theorem noslash_vDatetimeTo (v : PDateTime) (hv : v.valid = true) : '/' ∉ vDatetimeTo v := by
+  rw [vDatetimeTo_eq v hv]
+  obtain ⟨⟨y, m, d⟩, h, mi, s, z⟩ := v
+  simp only [PDateTime.valid, PDate.valid, Bool.and_eq_true] at hv
+  obtain ⟨hy, hm, hd⟩ := validDate_bounds hv.1
+  obtain ⟨hh, hmi, hs⟩ := validTime_bounds hv.2
+  intro hmem
+  simp only [List.mem_append, List.mem_cons] at hmem
+  rcases hmem with h1 | h2 | h3 | h4
+  · exact dtChar_ne_slash _ (dtChars_dateChars y m d hy hm hd _ h1) rfl
+  · revert h2; decide
+  · exact dtChar_ne_slash _ (dtChars_hmsChars h mi s (by omega) (by omega) (by omega) _ h3) rfl
+  · cases z <;> simp at h4
+
+/-- characters of a DURATION text written by the encoder -/
+def durChar (c : Char) : Bool :=
+  isDigit c || c == '-' || c == 'P' || c == 'D' || c == 'T' || c == 'H' || c == 'M' || c == 'S'
+
+theorem durChar_natToStr (n : Nat) : (natToStr n).all durChar = true := by
+  rw [List.all_eq_true]; intro c hc; simp [durChar, natToStr_digits n c hc]
+
+theorem durChars_durTo (s : Int) : (durTo s).all durChar = true := by
+  have hN := durChar_natToStr
+  have c1 : durChar '-' = true := by decide
+  have c2 : durChar 'P' = true := by decide
+  have c3 : durChar 'D' = true := by decide
+  have c4 : durChar 'T' = true := by decide
+  have c5 : durChar 'H' = true := by decide
+  have c6 : durChar 'M' = true := by decide
+  have c7 : durChar 'S' = true := by decide
+  unfold durTo durBodyOf timepartOf hmsText
+  simp only []
+  repeat' split
+  all_goals simp [List.all_append, hN, c1, c2, c3, c4, c5, c6, c7]
+
+theorem noslash_durTo (s : Int) : '/' ∉ durTo s := by
+  intro h
+  have := List.all_eq_true.1 (durChars_durTo s) _ h
+  revert this; decide
+
+/-! ## decoders on grammar-valid texts -/
+
+theorem rfcDate_vDateFrom {t : Str} {v : PDate} (h : rfcDate t = some v) : vDateFrom t = .ok v := by
+  obtain ⟨a, b, c, d, e, f, g, i, rfl, ha, hb, hc, hd, he, hf, hg, hi, hv, rfl⟩ := rfcDate_inv h
+  exact vDateFrom_chars a b c d e f g i [] ha hb hc hd he hf hg hi hv
+
+theorem rfcDateTime_vDatetimeFrom {t : Str} {v : PDateTime} (h : rfcDateTime t = some v) :
+    vDatetimeFrom t = .ok v := by
+  obtain ⟨a, b, c, d, e, f, g, i, j, k, l, m, n, o, rfl, ha, hb, hc, hd, he, hf, hg, hi, hj, hk, hl, hm, hn, ho, hv, ht, hval⟩ :=
+    rfcDateTime_inv h
+  rw [vDatetimeFrom_chars a b c d e f g i 'T' j k l m n o v.utc ha hb hc hd he hf hg hi hj hk hl hm hn ho hv ht]
+  rw [← hval]
+
+/-- the time decoder reads the right hour, minute and second, but always answers a naive time -/
+theorem rfcTime_vTimeFrom {t : Str} {v : PTime} (h : rfcTime t = some v) :
+    vTimeFrom t = .ok { v with utc := false } := by
+  obtain ⟨a, b, c, d, e, f, hform, ha, hb, hc, hd, he, hf, hv, e1, e2, e3⟩ := rfcTime_inv h
+  rcases hform with ⟨rfl, _⟩ | ⟨rfl, _⟩
+  · rw [vTimeFrom_chars a b c d e f [] ha hb hc hd he hf hv, e1, e2, e3]
+  · rw [vTimeFrom_chars a b c d e f ['Z'] ha hb hc hd he hf hv, e1, e2, e3]
+
+theorem durFromE_of {t : Str} {v : Int} (h : durFrom t = some v) : durFromE t = .ok v := by
+  unfold durFromE; rw [h]
+
+theorem rfcDateTime_not_prefix {t : Str} (h : ∃ x, t = 'P' :: x ∨ t = '-' :: 'P' :: x ∨ t = '+' :: 'P' :: x) :
+    rfcDateTime t = none := by
+  cases hr : rfcDateTime t with
+  | none => rfl
+  | some v =>
+    obtain ⟨a, b, c, d, e, f, g, i, j, k, l, m, n, o, ht, ha, _⟩ := rfcDateTime_inv hr
+    obtain ⟨x, hx⟩ := h
+    rw [ht] at hx
+    rcases hx with hx | hx | hx <;> (simp at hx; obtain ⟨rfl, _⟩ := hx; exact absurd ha (by decide))
+
+/-- the head of a DATE-TIME text is a digit and the text has no `/` -/
+theorem rfcDateTime_shape {t : Str} {v : PDateTime} (h : rfcDateTime t = some v) :
+    ∃ c cs, t = c :: cs ∧ isDigit c = true := by
+  obtain ⟨a, b, c, d, e, f, g, i, j, k, l, m, n, o, ht, ha, _⟩ := rfcDateTime_inv h
+  exact ⟨a, _, ht, ha⟩
+
+/-- every RFC `period` text decodes to the RFC value -/
+theorem rfcPeriod_vPeriodFrom {t : Str} {p : DDD} (h : rfcPeriod t = some p) : vPeriodFrom t = .ok p := by
+  unfold rfcPeriod at h
+  unfold vPeriodFrom
+  split at h
+  · next a b hsplit =>
+    cases hs : rfcDateTime a with
+    | none => rw [hs] at h; cases h
+    | some s =>
+      rw [hs] at h; simp only [] at h
+      rw [dddCore_datetime _ hs, rfcDateTime_vDatetimeFrom hs]
+      cases he : rfcDateTime b with
+      | some e =>
+        rw [he] at h; simp only [Option.some.injEq] at h; subst h
+        rw [dddCore_datetime _ he, rfcDateTime_vDatetimeFrom he]
+        rfl
+      | none =>
+        rw [he] at h; simp only [] at h
+        cases hd : rfcDuration b with
+        | none => rw [hd] at h; cases h
+        | some d =>
+          rw [hd] at h; simp only [Option.map_some, Option.some.injEq] at h; subst h
+          rw [dddCore_duration _ hd, durFromE_of (rfcDuration_durFrom hd)]
+          rfl
+  · cases h
+
+/-- PERIOD texts go to the period decoder -/
+theorem dddFrom_period {t : Str} {p : DDD} (h : rfcPeriod t = some p) : dddFrom t = vPeriodFrom t := by
+  unfold rfcPeriod at h
+  split at h
+  · next a b hsplit =>
+    obtain ⟨ht, _, _⟩ := splitOnChar_two hsplit
+    cases hs : rfcDateTime a with
+    | none => rw [hs] at h; cases h
+    | some s =>
+      obtain ⟨c, cs, rfl, hc⟩ := rfcDateTime_shape hs
+      subst ht
+      unfold dddFrom dddCore
+      simp only []
+      have h1 : c ≠ 'P' := isDigit_ne c 'P' hc
+      have h2 : c ≠ '-' := isDigit_ne c '-' hc
+      have h3 : c ≠ '+' := isDigit_ne c '+' hc
+      have hsl : (upper (c :: cs ++ '/' :: b)).contains '/' = true := by
+        have : upperC '/' = '/' := by decide
+        simp [upper, this]
+      rw [hsl]
+      simp [upper, startsWith, upperC_digit c hc, h1, h2, h3]
+  · cases h
+
+/-! ## PERIOD: encoder output -/
+
+theorem durTo_prefix (s : Int) : ∃ x, durTo s = 'P' :: x ∨ durTo s = '-' :: 'P' :: x ∨ durTo s = '+' :: 'P' :: x := by
+  obtain ⟨x, hx⟩ := durBodyOf_P s.natAbs
+  unfold durTo
+  split
+  · exact ⟨x, Or.inr (Or.inl (by rw [hx]))⟩
+  · exact ⟨x, Or.inl hx⟩
+
+theorem rfcDuration_P (x : Str) :
+    rfcDuration ('P' :: x) = (rfcDurBody ('P' :: x)).map (fun (v : Nat) => Int.ofNat v) := by
+  unfold rfcDuration
+  split
+  · next r heq => simp at heq
+  · next r heq => simp at heq
+  · rfl
+
+theorem rfcDuration_durTo (s : Int) : rfcDuration (durTo s) = some s := by
+  unfold durTo
+  obtain ⟨x, hx⟩ := durBodyOf_P s.natAbs
+  have hb := rfcDurBody_durBodyOf s.natAbs
+  split
+  · next hneg =>
+    simp only [rfcDuration, hb, Option.map_some]
+    congr 1; simp; omega
+  · next hpos =>
+    rw [hx] at hb ⊢
+    rw [rfcDuration_P, hb]
+    simp; omega
+
+theorem rfcPeriod_vPeriodTo_dt (s e : PDateTime) (hs : s.valid = true) (he : e.valid = true) :
+    rfcPeriod (vPeriodTo (.dt s) (.dt e)) = some (.period (.dt s) (.dt e)) := by
+  unfold rfcPeriod vPeriodTo atomTo
+  rw [splitOnChar_append '/' _ _ (noslash_vDatetimeTo s hs), splitOnChar_nosep '/' _ (noslash_vDatetimeTo e he)]
+  simp only [rfcDateTime_vDatetimeTo s hs, rfcDateTime_vDatetimeTo e he]
+
+theorem rfcPeriod_vPeriodTo_dur (s : PDateTime) (d : Int) (hs : s.valid = true) :
+    rfcPeriod (vPeriodTo (.dt s) (.dur d)) = some (.period (.dt s) (.dur d)) := by
+  unfold rfcPeriod vPeriodTo atomTo
+  rw [splitOnChar_append '/' _ _ (noslash_vDatetimeTo s hs), splitOnChar_nosep '/' _ (noslash_durTo d)]
+  simp only [rfcDateTime_vDatetimeTo s hs, rfcDateTime_not_prefix (durTo_prefix d), rfcDuration_durTo d,
+    Option.map_some]
+
+/-! ## the five classes of `vDDDTypes.from_ical` are pairwise disjoint -/
+
+theorem sig_date {t : Str} {v : PDate} (h : rfcDate t = some v) :
+    t.length = 8 ∧ (∃ c cs, t = c :: cs ∧ isDigit c = true) ∧ '/' ∉ t := by
+  obtain ⟨a, b, c, d, e, f, g, i, rfl, ha, hb, hc, hd, he, hf, hg, hi, _, _⟩ := rfcDate_inv h
+  refine ⟨rfl, ⟨a, _, rfl, ha⟩, ?_⟩
+  intro hm; simp at hm
+  rcases hm with rfl | rfl | rfl | rfl | rfl | rfl | rfl | rfl <;> exact absurd ‹isDigit '/' = true› (by decide)
+
+theorem sig_time {t : Str} {v : PTime} (h : rfcTime t = some v) :
+    (t.length = 6 ∨ t.length = 7) ∧ (∃ c cs, t = c :: cs ∧ isDigit c = true) ∧ '/' ∉ t := by
+  obtain ⟨a, b, c, d, e, f, hform, ha, hb, hc, hd, he, hf, _⟩ := rfcTime_inv h
+  rcases hform with ⟨rfl, _⟩ | ⟨rfl, _⟩
+  · refine ⟨Or.inl rfl, ⟨a, _, rfl, ha⟩, ?_⟩
+    intro hm; simp at hm
+    rcases hm with rfl | rfl | rfl | rfl | rfl | rfl <;> exact absurd ‹isDigit '/' = true› (by decide)
+  · refine ⟨Or.inr rfl, ⟨a, _, rfl, ha⟩, ?_⟩
+    intro hm; simp at hm
+    rcases hm with rfl | rfl | rfl | rfl | rfl | rfl <;> exact absurd ‹isDigit '/' = true› (by decide)
+
+theorem sig_datetime {t : Str} {v : PDateTime} (h : rfcDateTime t = some v) :
+    (t.length = 15 ∨ t.length = 16) ∧ (∃ c cs, t = c :: cs ∧ isDigit c = true) ∧ '/' ∉ t := by
+  obtain ⟨a, b, c, d, e, f, g, i, j, k, l, m, n, o, rfl, ha, hb, hc, hd, he, hf, hg, hi, hj, hk, hl, hm, hn, ho, _⟩ :=
+    rfcDateTime_inv h
+  refine ⟨?_, ⟨a, _, rfl, ha⟩, ?_⟩
+  · cases v.utc <;> simp
+  · intro hmem
+    cases hz : v.utc <;> simp [hz] at hmem
+    all_goals
+      rcases hmem with rfl | rfl | rfl | rfl | rfl | rfl | rfl | rfl | rfl | rfl | rfl | rfl | rfl | rfl
+      all_goals exact absurd ‹isDigit '/' = true› (by decide)
+
+theorem sig_duration {t : Str} {v : Int} (h : rfcDuration t = some v) :
+    ∃ c cs, t = c :: cs ∧ isDigit c = false := by
+  obtain ⟨x, hx | hx | hx⟩ := rfcDuration_prefix h <;> exact ⟨_, _, hx, by decide⟩
+
+theorem sig_period {t : Str} {p : DDD} (h : rfcPeriod t = some p) :
+    (∃ c cs, t = c :: cs ∧ isDigit c = true) ∧ '/' ∈ t := by
+  unfold rfcPeriod at h
+  split at h
+  · next a b hsplit =>
+    obtain ⟨ht, _, _⟩ := splitOnChar_two hsplit
+    cases hs : rfcDateTime a with
+    | none => rw [hs] at h; cases h
+    | some s =>
+      obtain ⟨c, cs, rfl, hc⟩ := rfcDateTime_shape hs
+      subst ht
+      exact ⟨⟨c, _, rfl, hc⟩, by simp⟩
+  · cases h
+
+/-! ## weekday -/
+
+theorem mem_weekDays {w : Str} (h : w ∈ weekDays) :
+    w = ['S', 'U'] ∨ w = ['M', 'O'] ∨ w = ['T', 'U'] ∨ w = ['W', 'E'] ∨ w = ['T', 'H'] ∨ w = ['F', 'R'] ∨ w = ['S', 'A'] := by
+  simpa [weekDays, Gen.weekDays] using h
+
+theorem weekDays_facts {w : Str} (h : w ∈ weekDays) :
+    ∃ x y, w = [x, y] ∧ isWordC x = true ∧ isWordC y = true ∧ weekDays.contains (upper [x, y]) = true ∧
+      upper [x, y] = [x, y] ∧ y ≠ '\n' ∧ x ≠ '+' ∧ x ≠ '-' := by
+  rcases mem_weekDays h with rfl | rfl | rfl | rfl | rfl | rfl | rfl <;> exact ⟨_, _, rfl, by decide⟩
+
+/-- `vWeekday(s)` on sign + up to two digits + a weekday name -/
+theorem vWeekdayNew_parts (sgn rel wd : Str) (hs : sgn = [] ∨ sgn = ['+'] ∨ sgn = ['-'])
+    (hl : rel.length ≤ 2) (hd : ∀ c ∈ rel, isDigit c = true) (hw : wd ∈ weekDays) :
+    vWeekdayNew (sgn ++ rel ++ wd) =
+      .ok ⟨sgn ++ rel ++ wd, wd,
+        if ofDigits rel = 0 then none
+        else if sgn = ['-'] then some (-((ofDigits rel : Nat) : Int)) else some ((ofDigits rel : Nat) : Int)⟩ := by
+  obtain ⟨x, y, rfl, hx, hy, _, hup, hlf, hx1, hx2⟩ := weekDays_facts hw
+  have hcont : upper [x, y] ∈ weekDays := by rw [hup]; exact hw
+  have hrel : rel = [] ∨ (∃ a, rel = [a]) ∨ (∃ a b, rel = [a, b]) := by
+    match rel, hl with
+    | [], _ => exact Or.inl rfl
+    | [a], _ => exact Or.inr (Or.inl ⟨a, rfl⟩)
+    | [a, b], _ => exact Or.inr (Or.inr ⟨a, b, rfl⟩)
+    | _ :: _ :: _ :: _, h => simp at h
+  rcases hrel with rfl | ⟨a, rfl⟩ | ⟨a, b, rfl⟩
+  · rcases hs with rfl | rfl | rfl <;>
+      simp [vWeekdayNew, hx, hy, hcont, hlf, hx1, hx2, ofDigits]
+  · have ha := hd a (by simp)
+    have h1 : a ≠ '+' := isDigit_ne a '+' ha
+    have h2 : a ≠ '-' := isDigit_ne a '-' ha
+    rcases hs with rfl | rfl | rfl <;>
+      simp [vWeekdayNew, hx, hy, hcont, hlf, ha, h1, h2, ofDigits]
+  · have ha := hd a (by simp)
+    have hb := hd b (by simp)
+    have h1 : a ≠ '+' := isDigit_ne a '+' ha
+    have h2 : a ≠ '-' := isDigit_ne a '-' ha
+    rcases hs with rfl | rfl | rfl <;>
+      simp [vWeekdayNew, hx, hy, hcont, hlf, ha, hb, h1, h2, ofDigits]
+
+
+theorem rfcSignSplit_spec (t : Str) :
+    ∃ sgn, t = sgn ++ (rfcSignSplit t).2 ∧
+      (((rfcSignSplit t).1 = none ∧ sgn = []) ∨ ((rfcSignSplit t).1 = some false ∧ sgn = ['+']) ∨
+       ((rfcSignSplit t).1 = some true ∧ sgn = ['-'])) := by
+  unfold rfcSignSplit
+  split
+  · exact ⟨['+'], rfl, Or.inr (Or.inl ⟨rfl, rfl⟩)⟩
+  · exact ⟨['-'], rfl, Or.inr (Or.inr ⟨rfl, rfl⟩)⟩
+  · exact ⟨[], rfl, Or.inl ⟨rfl, rfl⟩⟩
+
+theorem rfcDay_inv {w : Str} {i : Nat}
+    (h : (if List.idxOf w weekDays < 7 then some (List.idxOf w weekDays) else none) = some i) :
+    w ∈ weekDays ∧ weekDays[i]? = some w := by
+  have hlen : weekDays.length = 7 := by decide
+  split at h
+  · next hlt =>
+    cases h
+    have hlt' : List.idxOf w weekDays < weekDays.length := by rw [hlen]; exact hlt
+    refine ⟨List.idxOf_lt_length_iff.1 hlt', ?_⟩
+    rw [List.getElem?_eq_getElem hlt', List.getElem_idxOf hlt']
+  · cases h
+
+/-- what `rfcWeekdayNum t = some (i, r)` says about `t` -/
+theorem rfcWeekdayNum_inv {t : Str} {i : Nat} {r : Option Int} (h : rfcWeekdayNum t = some (i, r)) :
+    ∃ sgn rel wd, t = sgn ++ rel ++ wd ∧ (sgn = [] ∨ sgn = ['+'] ∨ sgn = ['-']) ∧ rel.length ≤ 2 ∧
+      (∀ c ∈ rel, isDigit c = true) ∧ wd ∈ weekDays ∧ weekDays[i]? = some wd ∧
+      r = (if ofDigits rel = 0 then none
+           else if sgn = ['-'] then some (-((ofDigits rel : Nat) : Int)) else some ((ofDigits rel : Nat) : Int)) := by
+  obtain ⟨sgn, ht, hsg⟩ := rfcSignSplit_spec t
+  have hsgn : sgn = [] ∨ sgn = ['+'] ∨ sgn = ['-'] := by
+    rcases hsg with ⟨_, h⟩ | ⟨_, h⟩ | ⟨_, h⟩ <;> simp [h]
+  unfold rfcWeekdayNum at h
+  simp only [] at h
+  generalize rfcSignSplit t = sr at h ht hsg
+  obtain ⟨sg, body⟩ := sr
+  simp only [] at h ht hsg
+  have hrel : ∀ n : Nat, n ≠ 0 →
+      some (if sg = some true then -(n : Int) else (n : Int)) =
+        (if n = 0 then none else if sgn = ['-'] then some (-(n : Int)) else some (n : Int)) := by
+    intro n hn
+    rw [if_neg hn]
+    rcases hsg with ⟨h1, h2⟩ | ⟨h1, h2⟩ | ⟨h1, h2⟩ <;> subst h1 <;> subst h2 <;> simp
+  split at h
+  · next x y =>
+    cases hd : (if List.idxOf [x, y] weekDays < 7 then some (List.idxOf [x, y] weekDays) else none) with
+    | none => rw [hd] at h; cases h
+    | some j =>
+      rw [hd] at h; simp only [Option.map_some, Option.some.injEq, Prod.mk.injEq] at h
+      obtain ⟨rfl, rfl⟩ := h
+      obtain ⟨hm, hi⟩ := rfcDay_inv hd
+      exact ⟨sgn, [], [x, y], by rw [ht]; simp, hsgn, by simp, by simp, hm, hi, by simp [ofDigits]⟩
+  · next sg a x y =>
+    split at h
+    · next hc =>
+      simp only [Bool.and_eq_true, decide_eq_true_iff] at hc
+      cases hd : (if List.idxOf [x, y] weekDays < 7 then some (List.idxOf [x, y] weekDays) else none) with
+      | none => rw [hd] at h; cases h
+      | some j =>
+        rw [hd] at h; simp only [Option.map_some, Option.some.injEq, Prod.mk.injEq] at h
+        obtain ⟨rfl, rfl⟩ := h
+        obtain ⟨hm, hi⟩ := rfcDay_inv hd
+        have hv : ofDigits [a] = digitVal a := by simp [ofDigits]
+        refine ⟨sgn, [a], [x, y], by rw [ht]; simp, hsgn, by simp, by simpa using hc.1, hm, hi, ?_⟩
+        rw [hv]; exact hrel _ (by omega)
+    · cases h
+  · next sg a b x y =>
+    split at h
+    · next hc =>
+      simp only [Bool.and_eq_true, decide_eq_true_iff] at hc
+      cases hd : (if List.idxOf [x, y] weekDays < 7 then some (List.idxOf [x, y] weekDays) else none) with
+      | none => rw [hd] at h; cases h
+      | some j =>
+        rw [hd] at h; simp only [Option.map_some, Option.some.injEq, Prod.mk.injEq] at h
+        obtain ⟨rfl, rfl⟩ := h
+        obtain ⟨hm, hi⟩ := rfcDay_inv hd
+        refine ⟨sgn, [a, b], [x, y], by rw [ht]; simp, hsgn, by simp, ?_, hm, hi, ?_⟩
+        · intro c hcm; simp at hcm; rcases hcm with rfl | rfl
+          · exact hc.1.1.1
+          · exact hc.1.1.2
+        · exact hrel (num2 a b) (by omega)
+    · cases h
+  · cases h
+
 end ICal
